@@ -339,7 +339,8 @@ Drift(e) ==
   \cup (IF e.ev = "Exists" /\ fl.oks # StageSet THEN {"stat-before-format"} ELSE {})
   \cup (IF e.ev = "FileBegin" /\ fl.cur # "" /\ fl.cur \notin fl.written THEN {"next-file-before-write"} ELSE {})
   \cup (IF e.ev = "Parsed" /\ ini.passes # 2 THEN {"initialize-not-run-twice"} ELSE {})
-  \cup (IF e.ev = "Recursive" /\ \E r \in ini.recs : Len(SegOf(r)) < Len(e.psegs) THEN {"recursive-not-deepest-first"} ELSE {})
+  \* config.go:380-385 orders by the LENGTH of the import path (a string)
+  \cup (IF e.ev = "Recursive" /\ \E r \in ini.recs : Len(r) < Len(e.pkg) THEN {"recursive-not-longest-path-first"} ELSE {})
 
 \* safety restated over the skeleton state (redundant with the clauses; cheap cross-check in both uses)
 WrittenWereCollected == fl.written \subseteq DOMAIN colls
